@@ -22,6 +22,27 @@ type Stmt struct {
 	T    int64   `json:"t"`              // write time, seconds after baseTime
 }
 
+// wellFormed rejects shapes only a minimiser can produce.
+func (s Stmt) wellFormed() bool {
+	switch s.Kind {
+	case "ins":
+		if len(s.Keys) == 0 || len(s.Vals) != len(s.Keys) {
+			return false
+		}
+		for _, v := range s.Vals {
+			if len(v) != len(s.Cols) {
+				return false
+			}
+		}
+		return true
+	case "upd":
+		return len(s.Cols) > 0 && len(s.Vals) == 1 && len(s.Vals[0]) == len(s.Cols)
+	case "del":
+		return true
+	}
+	return false
+}
+
 func (s Stmt) String() string {
 	q, args := s.SQL("T", "k")
 	return fmt.Sprintf("@%d %s %v", s.T, q, args)
